@@ -267,15 +267,19 @@ def cleanSet (P : Params) (vals : List (Option Int)) (k : Nat) (d : Disk) : List
     ((cl.filter (fun p => decide (p ≠ P.mpath e ∧ p ≠ P.opath e))).eraseDups).filter (present d)
   else []
 
+/-- The main sequence of calls: history row first or checkpoint first. -/
+def mainOps (Q : Quirks) (P : Params) (vals : List (Option Int)) (k : Nat) (d : Disk)
+    (s : Nat × Nat) : List FsOp :=
+  if infoFirst Q P vals k d then histOps Q d (k + 1) ++ saveOps P d (k + 1) s
+  else saveOps P d (k + 1) s ++ histOps Q d (k + 1)
+
 /-- What one call of `update_for_epoch` for epoch `k+1` does to the disk, `k` epochs being
 recorded in the controller's cache and `s` being the state to save: the main sequence and the
 clean-up set. -/
 def planUpdate (Q : Quirks) (P : Params) (vals : List (Option Int)) (k : Nat) (d : Disk)
     (s : Nat × Nat) : Except Err (List FsOp × List Path) :=
-  let save := saveOps P d (k + 1) s
-  let hist := histOps Q d (k + 1)
   if refuses P vals k then .error .wouldOverwriteBest
-  else .ok ((if infoFirst Q P vals k d then hist ++ save else save ++ hist), cleanSet P vals k d)
+  else .ok (mainOps Q P vals k d s, cleanSet P vals k d)
 
 /-- All mutating calls of the update, clean-up in the order `cl`. -/
 def opsOf (main : List FsOp) (cl : List Path) : List FsOp := main ++ cl.map .remove
